@@ -891,7 +891,7 @@ func (vfs *MemFS) rename(oldpath, newpath string) (again bool, err error) {
 
 	oPath, nPath := oPI.Path(), nPI.Path()
 	if oPath == nPath {
-		if _, ok := oChild.(*dirNode); ok {
+		if _, ok := oChild.(*dirNode); ok && oldpath == newpath {
 			// os.Rename refuses an existing directory as new name, even the same one.
 			err := vfs.err.FileExists
 			if vfs.OSType() == avfs.OsWindows {
@@ -905,6 +905,16 @@ func (vfs *MemFS) rename(oldpath, newpath string) (again bool, err error) {
 	}
 
 	sep := string(vfs.PathSeparator())
+
+	if _, ok := nChild.(*dirNode); ok && nChild != node(nParent) {
+		// an existing directory is never replaced (see os.Rename), wherever it is.
+		err := vfs.err.FileExists
+		if vfs.OSType() == avfs.OsWindows {
+			err = avfs.ErrWinAccessDenied
+		}
+
+		return false, &os.LinkError{Op: op, Old: oldpath, New: newpath, Err: err}
+	}
 
 	// The root directory can't be moved, and a directory can't be moved below itself.
 	if oChild == node(oParent) || strings.HasPrefix(nPath, strings.TrimSuffix(oPath, sep)+sep) {
